@@ -43,21 +43,23 @@ must differ from the import account, otherwise a posting pair cancels itself):
   `swissquote_sale_without_proceeds_is_a_sale` (repair c9fcfe1).  `ch.postfinance`'s model no longer has an echo
   (repair 3b9fb06): `Postfinance.run` yields directives only.
 
-**Not mechanised (partial).**  The text-level clause.  Full statement, with `parse` the parser model and `load` parser + model builder:
-
-      theorem C13_output_valid (ds : List Directive) (h : ∀ d ∈ ds, wellFormed isAlphanumeric d) :
-        (∃ f, Syntax.parseText "" (render ds).toUTF8.toList = .ok f) ∧
-        JournalPrinter.print (load (printOpens ds ++ render ds)) = printOpens ds ++ render ds
-
-  Its hypothesis is proved for every importer (`C13_<importer>_wellformed`); the conclusion needs the print-then-parse
-  lemmas of the parser model (owned by C07/C08) carried over to `journal.Print`'s layout, which do not exist yet
-  (`JournalPrinter.printTx` goes through `String.replace`, about which core Lean proves nothing).  The clause is decided on every
-  run on the REAL output by the monitors `output_parses` (knut's parser), `output_parses_lean_parser` (the parser
-  model), `directives_wellformed`, `output_accepted` and `output_reprinted_unchanged` (`knut print` on opens +
-  output), over free text with quotes, separators, newlines, control characters and Unicode.  (Until repair 7934e0c
-  the second half was false: the printer replaced `"` by `'` only after the day's transactions had been sorted by the
-  unreplaced description.  What the model carries of the repair is proved: `C13_description_has_no_quote`; that the
-  printer's remaining `String.replace` is the identity on such a description is again a fact about `String.replace`.)
+**The text-level clause** (the emitted text is valid for knut's parser and, once the accounts are opened, accepted and
+re-printed unchanged) is proved in `Properties/C13Text.lean`, for all eleven importers and all statements, on top of C09's
+print-then-parse theorems for `journal.Print`'s layout (`Properties/C09Text.lean`; the printer's quote replacement is the
+character-wise `JournalPrinter.descText`, the identity on the quote-free descriptions `mkTx` stores):
+`C13_<importer>_printable` (every emitted directive satisfies C09's hypothesis `PrintableDir`: names from
+`C13_<importer>_wellformed` here, dates in the range of `time.Parse`, decimal amounts, booking normal form),
+`C13_text_parses` / `C13_text_parser_accepts` (the text loads to exactly the directives built, in print order, and prints
+to itself), `C13_text_valid` (opens + output is accepted and reproduced byte for byte by `knut print`, for the eight
+importers that emit transactions and prices only), and for `revolut2`, `revolut`, `us.interactivebrokers`, whose output
+carries the statement's balance assertions, `C13_text_accepted_iff_consistent` / `C13_text_valid_iff_consistent`: accepted
+and reproduced if and only if the statement's balance column is consistent with its amounts (`Consistent`, a predicate on
+the statement's items). The same clause is also decided on every run on the REAL output by the monitors `output_parses`
+(knut's parser), `output_parses_lean_parser` (the parser model), `directives_wellformed`, `output_accepted` and
+`output_reprinted_unchanged` (`knut print` on opens + output), over free text with quotes, separators, newlines, control
+characters and Unicode.  (Until repair 7934e0c the second half was false: the printer replaced `"` by `'` only after the
+day's transactions had been sorted by the unreplaced description; `C13_description_has_no_quote` is what the model
+carries of the repair.)
 -/
 namespace Knut.C13
 open Knut Knut.Import Knut.Spec.Import Knut.Proofs.Import
